@@ -38,5 +38,9 @@ try {
       if (r.status === 1) out.fired.push(id); else out.silent.push(id + (r.status === 0 ? '' : `(exit ${r.status})`))
     }
   }
-} finally { restore() }
+} finally {
+  restore()
+  // leave the harness binary built from the restored tree
+  sh('cd /verif && node -e "require(\'./js/lib/rw\').build(\'release\')"')
+}
 console.log(JSON.stringify(out, null, 1))
